@@ -34,7 +34,8 @@ RULE = ("complete enumeration of (command in {onboard, unlock, changepin, pubkey
         "state (mode {bootloader, signer, ui-heartbeat, unknown, foreign byte} x onboarded {yes, "
         "no, error} x echo {ok, bad} x platform {Ledger, SGX}) x operator input (PIN valid / 7 "
         "chars / digits only / non-alphanumeric / 9 chars / trailing newline / CR / NUL / leading "
-        "space / non-ASCII digit / absent-then-typed; any-pin flag; "
+        "space / non-ASCII digit / each of the 66 non-alphanumeric ASCII bytes at the head, inside, at the "
+        "tail / absent-then-typed; any-pin flag; "
         "answer yes / no / n / other-then-yes / other-then-no; no-unlock flag; new-PIN classes); "
         "non-trivial = combination in which exactly one precondition fails, or all hold; "
         "distinct = distinct combinations")
@@ -52,6 +53,19 @@ PINS = {"valid": "abcd1234", "short": "abc1234", "digits": "12345678", "nonalnum
         # 8 bytes once encoded, made of characters that are letters / numerics to Unicode
         "latin1-letter": "abc123ü", "superscripts": "pas1²³", "digits-and-accent": "123456ê",
         "typed-valid": None, "typed-bad-then-valid": None}
+BASE_PINS = list(PINS)
+# every ASCII byte that is not a letter or a digit, at the head, inside and at the tail of an
+# otherwise compliant PIN (the policy is a statement about each of the 8 characters)
+for _b in range(128):
+    if _b in ALNUM:
+        continue
+    for _pos in (0, 4, 7):
+        _t = list("abcd1234")
+        _t[_pos] = chr(_b)
+        PINS["byte-%02x@%d" % (_b, _pos)] = "".join(_t)
+BYTE_PINS = [k for k in PINS if k.startswith("byte-")]
+
+
 class OperatorGone(BaseException):
     """Standard input is at its end and stays there: nobody is going to answer."""
 
@@ -91,16 +105,16 @@ def grid(tier, seed):
     out = []
     for plat, mode, onb, echo in itertools.product(PLATS, MODES, ONB, [True, False]):
         st = {"plat": plat, "mode": mode, "onb": onb, "echo": echo}
-        for pin, anyp, ans in itertools.product(PINS, [False, True], ANSWERS):
+        for pin, anyp, ans in itertools.product(BASE_PINS, [False, True], ANSWERS):
             out.append(dict(st, cmd="onboard", pin=pin, any_pin=anyp, answer=ans))
-        for pin, anyp in itertools.product(PINS, [False, True]):
+        for pin, anyp in itertools.product(BASE_PINS, [False, True]):
             out.append(dict(st, cmd="unlock", pin=pin, any_pin=anyp, correct=True))
             if pin == "valid":
                 out.append(dict(st, cmd="unlock", pin=pin, any_pin=anyp, correct=False))
             if pin == "typed-valid" and not anyp:
                 out.append(dict(st, cmd="unlock", pin=pin, any_pin=anyp, correct=True,
                                 swap=True))
-        for newpin, anyp, nou in itertools.product(PINS, [False, True], [False, True]):
+        for newpin, anyp, nou in itertools.product(BASE_PINS, [False, True], [False, True]):
             out.append(dict(st, cmd="changepin", pin="valid", new_pin=newpin, any_pin=anyp,
                             no_unlock=nou))
             if newpin in ("valid", "typed-valid", "typed-bad-then-valid", "digits"):
@@ -109,6 +123,13 @@ def grid(tier, seed):
                                 any_pin=anyp, no_unlock=nou))
         for nou in (False, True):
             out.append(dict(st, cmd="pubkeys", pin="valid", any_pin=False, no_unlock=nou))
+    # one character outside the policy, every such ASCII byte, on a device that would
+    # otherwise be onboarded / have its PIN changed
+    for plat, pin in itertools.product(PLATS, BYTE_PINS):
+        out.append(dict(plat=plat, mode=BOOT, onb=False, echo=True, cmd="onboard", pin=pin,
+                        any_pin=False, answer="yes"))
+        out.append(dict(plat=plat, mode=BOOT, onb=True, echo=True, cmd="changepin",
+                        pin="valid", new_pin=pin, any_pin=False, no_unlock=False))
     return out
 
 
